@@ -13,7 +13,7 @@ VARIABLES l,        \* next line to judge
           snap      \* [line, aux] of the last Commit (or InitChain): what a restart must resume from
 vars == <<l, aux, bad, snap>>
 
-InitAux == [props |-> <<>>, nextProp |-> 1, ever |-> [wrk |-> <<>>, bcn |-> <<>>], sh |-> <<>>, ghost |-> {}, ghostp |-> {}]
+InitAux == [props |-> <<>>, nextProp |-> 1, ever |-> [wrk |-> <<>>, bcn |-> <<>>], sh |-> <<>>, ghost |-> {}, ghostp |-> {}, exsig |-> {}]
 
 ------------------------------------------------------------------------------
 (* L2: view comparison between the expected and the observed post-state *)
@@ -33,6 +33,7 @@ StateDiff(e, o) ==
   \cup FieldDiff(<<"bcn">>, e.bcn, o.bcn, {"p", "next"}) \cup ChDiff("bcn", e, o)
   \cup FieldDiff(<<"str">>, e.str, o.str, {"p", "s"})
   \cup (IF e.grants # o.grants THEN {<<"grants">>} ELSE {})
+  \cup (IF e.fgrants # o.fgrants THEN {<<"fgrants">>} ELSE {})
   \cup (IF e.vest # o.vest THEN {<<"vest">>} ELSE {})
   \cup (IF e.time # o.time THEN {<<"time">>} ELSE {})
 
@@ -58,6 +59,7 @@ DiffProps(d, ev) ==
     [] d[1] = "str" -> (IF d[2] = "p" THEN {"C16"} ELSE {"C10", "C11"})
     [] d[1] = "halted" -> {"C14"}
     [] d[1] = "grants" -> {"C13"}
+    [] d[1] = "fgrants" -> {"C05", "C14"}
     [] d[1] = "vest" -> {"C05"}
     [] d[1] = "outs" -> {"C09", "C07", "C11"}
     [] OTHER -> {}
@@ -186,6 +188,10 @@ Judge(i) ==
      \cup (IF "burns" \in DOMAIN ev.res /\ \E d \in Denoms : ev.res.burns[d] # 0 THEN {<<i, "L1", "C02", "UnexpectedBurn">>} ELSE {})
      \cup (IF ev.a = "CheckTx" /\ ev.res.ok /\ ~AdmitIdeal(pre, ev.args)
            THEN {<<i, "L1", "C06", AdmissionKind(pre, ev.args)>>} ELSE {})
+     \cup (IF ev.a = "Recheck"
+           THEN UNION { IF ev.res.results[k].ok /\ ~AdmitIdeal(pre, ev.res.txs[k])
+                        THEN {<<i, "L1", "C06", "StillAdmittedAtRecheck" \o AdmissionKind(pre, ev.res.txs[k])>>} ELSE {} : k \in DOMAIN ev.res.results }
+           ELSE {})
      \cup (IF ev.a = "CheckTx" /\ ~ev.res.ok /\ AdmitIdeal(pre, ev.args) /\ HasRegistryOps(ev.args.msgs)
            THEN {<<i, "L2", "note", <<"checktx-refused-exact-fee", FALSE>> >>} ELSE {})
      \cup (IF HasStreamMsg(evm) /\ exp.ok /\ ~ev.res.ok THEN {<<i, "L1", "C12", "StreamOperationRefused">>} ELSE {})
